@@ -9,7 +9,27 @@ Works on the text of the generated file (all back ends): array initialisers
 import re, sys, json
 
 ARR_RE = re.compile(
-    r'(?:static\s+)?const\s+(?:struct\s+)?[\w]+(?:\s+[\w]+)*\s*\*?\s*\b(yy_\w+)\s*((?:\[\s*\w*\s*\])+)\s*=\s*\{', re.S)
+    r'(?:static\s+)?const\s+((?:struct\s+)?[\w]+(?:\s+[\w]+)*)\s*\*?\s*\b(yy_\w+)\s*((?:\[\s*\w*\s*\])+)\s*=\s*\{', re.S)
+
+# element types: values written in the initialiser are converted to the declared type by the C
+# compiler, so the extractor applies the same conversion (a table emitted with too narrow a type
+# is then seen by the validator the way the running scanner sees it)
+WIDTHS = {'flex_int16_t': (16, True), 'flex_int32_t': (32, True), 'flex_int8_t': (8, True),
+          'flex_uint8_t': (8, False), 'flex_uint16_t': (16, False), 'flex_uint32_t': (32, False),
+          'YY_CHAR': (8, False), 'short': (16, True), 'int': (32, True), 'unsigned char': (8, False),
+          'char': (8, True), 'int16_t': (16, True), 'int32_t': (32, True), 'uint8_t': (8, False),
+          'uint16_t': (16, False), 'yy_state_type': (32, True), 'long': (64, True)}
+
+
+def _conv(v, ty):
+    w = WIDTHS.get(ty.strip().split()[-1] if ty.strip() not in WIDTHS else ty.strip())
+    if w is None:
+        return v
+    bits, signed = w
+    v &= (1 << bits) - 1
+    if signed and v >= 1 << (bits - 1):
+        v -= 1 << bits
+    return v
 
 def _match_brace(text, start):
     depth = 0
@@ -31,8 +51,9 @@ INT_RE = re.compile(r'-?\d+')
 def extract(text):
     out = {'arrays': {}, 'consts': {}}
     for m in ARR_RE.finditer(text):
-        name = m.group(1)
-        dims = m.group(2)
+        ty = m.group(1)
+        name = m.group(2)
+        dims = m.group(3)
         lb = m.end() - 1
         rb = _match_brace(text, lb)
         body = text[lb + 1:rb]
@@ -45,11 +66,12 @@ def extract(text):
             out['arrays']['yy_transition_n'] = [int(b) for a, b in recs]
         elif ndims == 2:
             rows = re.findall(r'\{([^{}]*)\}', body)
-            out['arrays'][name] = [[int(x) for x in INT_RE.findall(r)] for r in rows]
+            out['arrays'][name] = [[_conv(int(x), ty) for x in INT_RE.findall(r)] for r in rows]
         else:
             if '{' in body:
                 continue
-            out['arrays'][name] = [int(x) for x in INT_RE.findall(body)]
+            out['arrays'][name] = [_conv(int(x), ty) for x in INT_RE.findall(body)]
+            out.setdefault('types', {})[name] = ty
     for m in re.finditer(r'^\s*#\s*define\s+(YY_[A-Z_0-9]+)\s+\(?\s*(-?\d+)\s*\)?\s*$', text, re.M):
         out['consts'].setdefault(m.group(1), int(m.group(2)))
     for m in re.finditer(r'^\s*(?:static\s+)?const\s+\w+\s+(YY_[A-Z_0-9]+)\s*=\s*(-?\d+)\s*;', text, re.M):
